@@ -309,7 +309,7 @@ def _run_case(ctx, P, stream, idx):
                     v = e.get(fld)
                     if isinstance(v, str) and any(pl and pl in v for pl in prose):
                         mech = None
-                        if fld == "typ" and S == "rest" and with_footer:
+                        if fld == "typ" and S == "rest" and with_footer and ":raises" not in v:
                             mech = "docstring.rest.footer-absorbed-into-last-type"
                         dev("prose-absorbed-into-%s" % fld, "%s of %s contains prose: %r" % (fld, name, v[:120]), mech=mech)
             try:
@@ -342,7 +342,7 @@ def _run_case(ctx, P, stream, idx):
                             dev("converted.prose-absorbed-into-%s" % fld, "after conversion %s of %s contains prose: %r" % (
                                 fld, name, v[:120]),
                                 mech="docstring.rest.footer-absorbed-into-last-type" if fld == "typ" and with_footer and (
-                                    T == "rest" or S == "rest") else None, converted=out)
+                                    T == "rest" or S == "rest") and ":raises" not in v else None, converted=out)
             except Exception as e:
                 P.count("reparse.raised:" + type(e).__name__)
             # the region before the converted section holds the header prose and nothing else
